@@ -4,7 +4,11 @@
 // normal thread ("coro":false) or inside a coroutine with an active coro_queue ("coro":true).
 // After every step the real objects are projected to the abstract state and compared.
 //
-// header: {"void":bool,"coro":bool,"pick":int,"kinds":{"l1":"loop","g2":"gated","t3":"cbt","o4":"cbonce","f5":"cbf"}}
+// header: {"void":bool,"coro":bool,"pick":int,"kinds":{"l1":"loop","g2":"gated","t3":"cbt","o4":"cbonce","f5":"cbf"},
+//          "hooked":"l1"|"" -- that listener awaits signal<T>::hook_up(fn); there is no signal before its first co_await
+//                              (action HookUp(l,mode,n): fn emits n values through the collector, then stores / drops it),
+//          "late":bool      -- a listener's emitter is obtained at its first co_await (after collectors/copies exist)
+//                              instead of before any other handle was derived from the signal}
 // projection:
 //   {"refs":use_count of the shared state,"chain":[listeners from the top],"cur":"null|storage|caller",
 //    "stor":{"has","v"},"cvar":int,"held":bool,"sp":[..],"queue":[..],"st":{l:state},"received":{l:[..]},
@@ -52,10 +56,32 @@ struct Seen {
 // ---- coroutine listeners ------------------------------------------------------------------------
 enum class Phase { fresh, gate, awaiting, done };
 
+template <typename T> struct World;
+
+// registration function handed to signal<T>::hook_up(): called with the collector of the freshly created signal
+template <typename T>
+struct Reg {
+    World<T> *w;
+    int n;          // values emitted through the collector before returning
+    bool store;     // keep the collector (else let it go)
+    void operator()(typename cocls::signal<T>::collector c);
+};
+
+// the object returned by hook_up(), wrapped only to read what it keeps protected (chain node address, weak state)
+template <typename T>
+struct HProbe : cocls::signal<T>::template hook_up_emitter<Reg<T>> {
+    using base_t = typename cocls::signal<T>::template hook_up_emitter<Reg<T>>;
+    HProbe(base_t &&b) : base_t(std::move(b)) {}
+    const cocls::awaiter *node() const { return static_cast<const cocls::awaiter *>(this); }
+    auto weak_state() const { return this->_wk_state; }
+};
+
 template <typename T>
 struct LState {
     std::string name;
     bool loop = false;
+    bool hooked = false;
+    std::optional<HProbe<T>> hk;        // hooked listener: what it co_awaits
     typename cocls::signal<T>::emitter em;
     std::coroutine_handle<> h{};        // the frame (parked at a gate or on the emitter)
     std::coroutine_handle<> gate_h{};   // set while parked at a gate
@@ -78,12 +104,16 @@ cocls::async<void> listener_body(LState<T> &L) {
         L.phase = Phase::awaiting;
         bool canceled = false;
         try {
+            // (the operand must be a named lvalue: g++ 12 awaits a COPY of `*L.hk`)
             if constexpr (std::is_void_v<T>) {
-                co_await L.em;
+                if (L.hooked) { HProbe<T> &e = *L.hk; co_await e; }
+                else co_await L.em;
                 L.seen.push(0);
             } else {
-                int &r = co_await L.em;
-                L.seen.push(r);
+                int v;
+                if (L.hooked) { HProbe<T> &e = *L.hk; int &r = co_await e; v = r; }
+                else { int &r = co_await L.em; v = r; }
+                L.seen.push(v);
             }
         } catch (const cocls::await_canceled_exception &) {
             L.seen.push(CANCEL);
@@ -150,14 +180,18 @@ struct World {
     int nemit = 0;
     int pick = 0;
     bool coro = false;
+    bool late = false;
+    std::string hooked;
     void *driver_addr = nullptr;
 
     void setup(const Scenario &sc) {
         coro = sc.hdr.at("coro").as_bool();
         pick = (int) sc.hdr.at("pick").as_int();
-        sigs[0].emplace();
-        created = 1;
-        {
+        late = sc.hdr.at("late").as_bool(false);
+        hooked = sc.hdr.at("hooked").as_str("");
+        if (hooked.empty()) {
+            sigs[0].emplace();
+            created = 1;
             collector_t c = sigs[0]->get_collector();
             wk = c._state;
             raw = c._state.get();
@@ -168,13 +202,21 @@ struct World {
                 LState<T> &L = ls[kv.first];
                 L.name = kv.first;
                 L.loop = k == "loop";
-                L.em = sigs[0]->get_emitter();
+                L.hooked = kv.first == hooked;
+                if (sigs[0]) L.em = sigs[0]->get_emitter();
             } else {
                 CbState &c = cbs[kv.first];
                 c.name = kv.first;
                 c.quota = k == "cbt" ? 1000000 : k == "cbonce" ? 1 : 0;
             }
         }
+    }
+
+    // called by the registration function of hook_up(): the signal exists now
+    void born(collector_t &c) {
+        wk = c._state;
+        raw = c._state.get();
+        for (auto &kv : ls) if (!kv.second.hooked) kv.second.em = signal_t(c).get_emitter();
     }
 
     // -- handles ----------------------------------------------------------------------------------
@@ -205,7 +247,9 @@ struct World {
 
     // -- naming of chain nodes and handles --------------------------------------------------------
     std::string who(const cocls::awaiter *n) {
-        for (auto &kv : ls) if (static_cast<const cocls::awaiter *>(&kv.second.em) == n) return kv.first;
+        for (auto &kv : ls) {
+            if (kv.second.hooked ? (kv.second.hk && kv.second.hk->node() == n) : static_cast<const cocls::awaiter *>(&kv.second.em) == n) return kv.first;
+        }
         // a connect() node is `class Awt : emitter { Fn _fn; }` (signal.h:263-308): the live functor
         // instance sits right behind the emitter base
         const char *p = reinterpret_cast<const char *>(n) + sizeof(typename signal_t::emitter);
@@ -299,16 +343,25 @@ struct World {
             if (it == ls.end()) { rep.error(k, "unknown listener"); return false; }
             LState<T> &L = it->second;
             if (L.phase == Phase::fresh) {
-                auto c = listener_body<T>(L);          // frame allocation is the user's
-                auto sp = c.detach();
-                L.h = sp.pop();
-                lib_scope s;
-                L.h.resume();                          // runs up to `co_await emitter`
+                if (L.hooked) { rep.error(k, "hooked listener starts with HookUp"); return false; }
+                if (late && live_handles() > 0) {
+                    int i = nth_live((pick + (int) k) % live_handles());
+                    L.em = sigs[i] ? sigs[i]->get_emitter() : signal_t(*cols[i]).get_emitter();
+                }
+                start(L);                              // runs up to `co_await emitter`
             } else if (L.gate_h) {
                 auto g = std::exchange(L.gate_h, {});
                 lib_scope s;
                 g.resume();
             } else { rep.error(k, "listener is not at a gate"); return false; }
+        } else if (a == "HookUp") {
+            auto it = ls.find(stp.sarg(0));
+            if (it == ls.end() || !it->second.hooked || it->second.phase != Phase::fresh) { rep.error(k, "cannot hook up"); return false; }
+            LState<T> &L = it->second;
+            L.hk.emplace(signal_t::hook_up(Reg<T>{this, stp.iarg(2), stp.sarg(1) == "store"}));
+            start(L);                                  // first co_await: signal created, subscribed, registration function called
+            // the shared state allocated inside hook_up lives until the last emitter (held by the replayer) is gone
+            lib_net -= 1;
         } else if (a == "Connect") {
             auto it = cbs.find(stp.sarg(0));
             if (it == cbs.end() || live_handles() == 0) { rep.error(k, "cannot connect"); return false; }
@@ -363,6 +416,17 @@ struct World {
         return true;
     }
 
+    // a fresh listener coroutine is started the way async::detach()/start() does it: directly inside a running
+    // coroutine, under a freshly installed coroutine queue on a normal thread
+    void start(LState<T> &L) {
+        auto c = listener_body<T>(L);          // frame allocation is the user's
+        auto sp = c.detach();
+        L.h = sp.pop();
+        lib_scope s;
+        if (coro) L.h.resume();
+        else cocls::coro_queue::install_queue_and_resume(L.h);
+    }
+
     // release everything that is still held; must leave nobody waiting
     void wind_up() {
         lib_scope s;
@@ -386,6 +450,19 @@ struct World {
         for (auto &kv : ls) if (kv.second.h) { kv.second.h.destroy(); kv.second.h = {}; }
     }
 };
+
+template <typename T>
+void Reg<T>::operator()(typename cocls::signal<T>::collector c) {
+    w->born(c);
+    for (int i = 0; i < n; i++) {
+        int v = ++w->nemit;
+        // each call's suspend point is discarded at once ("replay the current value to the new observer")
+        if constexpr (std::is_void_v<T>) { (void) v; c(); }
+        else if ((w->pick + i) % 2) c(static_cast<short>(v));
+        else { w->rv_slot = v; c(std::move(w->rv_slot)); w->rv_slot = TEMP_DEAD; }
+    }
+    if (store) { w->cols[0].emplace(std::move(c)); w->created = 1; }
+}
 
 template <typename T>
 cocls::async<void> driver(World<T> &w, const Scenario &sc, Reporter &rep) {
